@@ -209,6 +209,17 @@ void XMLWriter::location(const location_t& loc)
     endElement();  // end of the "location" element
 }
 
+/* writes a branchpoint (placed after the locations on the diagonal) */
+void XMLWriter::branchpoint(const branchpoint_t& bp, size_t locations)
+{
+    int pos = STEP * (static_cast<int>(locations) + bp.bpNr);
+    startElement("branchpoint");
+    writeAttribute("id", concat("bp", bp.bpNr).c_str());
+    writeAttribute("x", std::to_string(pos).c_str());
+    writeAttribute("y", std::to_string(pos).c_str());
+    endElement();
+}
+
 /* writes the init tag */
 void XMLWriter::init(const template_t& templ)
 {
@@ -221,8 +232,9 @@ void XMLWriter::init(const template_t& templ)
 /* writes the source of the given edge */
 int XMLWriter::source(const edge_t& edge)
 {
-    int loc = edge.src->nr;
-    const auto id = concat("id", loc);
+    // an edge starts either in a location or in a branchpoint (then edge.src is null)
+    int loc = edge.src ? edge.src->nr : -1 - edge.srcb->bpNr;
+    const auto id = edge.src ? concat("id", loc) : concat("bp", edge.srcb->bpNr);
     startElement("source");
     writeAttribute("ref", id.c_str());
     endElement();
@@ -232,8 +244,9 @@ int XMLWriter::source(const edge_t& edge)
 /* writes the target of the given edge */
 int XMLWriter::target(const edge_t& edge)
 {
-    int loc = edge.dst->nr;
-    const auto id = concat("id", loc);
+    // an edge ends either in a location or in a branchpoint (then edge.dst is null)
+    int loc = edge.dst ? edge.dst->nr : -1 - edge.dstb->bpNr;
+    const auto id = edge.dst ? concat("id", loc) : concat("bp", edge.dstb->bpNr);
     startElement("target");
     writeAttribute("ref", id.c_str());
     endElement();
@@ -277,7 +290,7 @@ void XMLWriter::transition(const edge_t& edge)
     // source and target
     auto src = source(edge);
     auto dst = target(edge);
-    if (src == dst) {
+    if (src == dst && edge.src != nullptr) {  // self loop on a location
         float angle = (edge.src->uid.get_name() != "lpmin") ? (3 * M_PI_2) : M_PI;
         selfLoop(src, angle, edge);
     } else {
@@ -335,6 +348,9 @@ void XMLWriter::taTempl(const template_t& templ)
         location(loc);
         selfLoops[loc.nr] = 0;
     }
+    // branchpoints
+    for (auto& bp : templ.branchpoints)
+        branchpoint(bp, templ.locations.size());
     // initial location
     init(templ);
     // transitions
